@@ -169,6 +169,30 @@ Proof.
   split; [proj; apply nget_nset_same|]. intros c' Hne. proj. rewrite nget_nset_other by exact Hne. now apply Hcn.
 Qed.
 
+(* what the refused socket sends later.  The read loop still runs on it, so: nothing it sends has any effect,
+   except that a QoS>0 PUBLISH of a v5 client ends the read loop (the receive quota of the connection was never
+   set) and the socket is closed - one OClose, no packet, no table changes.  The same with the packet's size. *)
+Definition closes_dead (k : conn) (p : pkt) : bool :=
+  match p with KPublish _ qos _ _ _ _ _ => (k_v k =? 5) && (0 <? qos) | _ => false end.
+
+Theorem dead_socket_send c k p s :
+  nget c (b_conns s) = Some k -> k_phase k = PhDead ->
+  step_event s (ESend c p) =
+    (if closes_dead k p then (upd_conn c (set_phase PhClosed k) s, [OClose c]) else (s, [])) /\
+  (forall n, step_event s (ESendSz c p n) = step_event s (ESend c p)) /\
+  tables (fst (step_event s (ESend c p))) = tables s.
+Proof.
+  intros Hk Hp.
+  assert (E : step_event s (ESend c p) =
+              (if closes_dead k p then (upd_conn c (set_phase PhClosed k) s, [OClose c]) else (s, []))).
+  { cbn [step_event]. rewrite Hk, Hp. unfold send_unconnected, closes_dead. rewrite Hp.
+    destruct p; try reflexivity. destruct ((k_v k =? 5) && (0 <? qos)); [|reflexivity].
+    unfold conn_gone. now rewrite Hk, Hp. }
+  split; [exact E|]. split.
+  - intros n. cbn [step_event]. now rewrite Hk, Hp.
+  - rewrite E. destruct (closes_dead k p); cbn [fst]; [apply tables_upd_conn|reflexivity].
+Qed.
+
 (* ... and of the whole step (the poll loops of all connections have run): socket c has been sent the CONNACK
    and nothing else, every table but the queues is as before; the queues are those the poll loops leave when
    started from the old queues (see connect_rejected_leaves_nothing: the event itself does not touch them) *)
@@ -239,8 +263,8 @@ Definition hs_code (h : hooks) (k : conn) (v5 : bool) (subid : N) (topics : list
   | _ => cap_code k v5 subid (hs_sub h k subid topics t)
   end.
 
-Definition hs_replays (v5 : bool) (sb : sub) (existed : bool) (t : topic_req) : bool :=
-  negb (v5 && negb (is_empty (s_share sb))) && ((negb existed && negb (tq_rh t =? 2)) || (tq_rh t =? 0)).
+Definition hs_replays (sb : sub) (existed : bool) (t : topic_req) : bool :=
+  negb (negb (is_empty (s_share sb))) && ((negb existed && negb (tq_rh t =? 2)) || (tq_rh t =? 0)).
 
 Lemma hs_body_eq c k v5 subid topics s0 o0 cs t :
   hs_body c k v5 subid topics (s0, o0, cs) t =
@@ -249,7 +273,7 @@ Lemma hs_body_eq c k v5 subid topics s0 o0 cs t :
   if code <? 128 then
     let '(d', existed) := db_subscribe (k_cid k) sb (b_subs s0) in
     let s1 := set_subs d' s0 in
-    let '(s2, o2) := if hs_replays v5 sb existed t then replay_retained c k sb s1 else (s1, []) in
+    let '(s2, o2) := if hs_replays sb existed t then replay_retained c k sb s1 else (s1, []) in
     (s2, o0 ++ o2, cs ++ [code])
   else (s0, o0, cs ++ [code]).
 Proof.
@@ -314,7 +338,7 @@ Proof.
   destruct (hs_code (b_hooks s0) k v5 subid topics t <? 128);
     [|cbn [fst snd]; repeat split; exists []; rewrite app_nil_r; split; [reflexivity|constructor]].
   destruct (db_subscribe (k_cid k) (hs_sub (b_hooks s0) k subid topics t) (b_subs s0)) as [d' existed]. cbn [fst].
-  destruct (hs_replays v5 (hs_sub (b_hooks s0) k subid topics t) existed t).
+  destruct (hs_replays (hs_sub (b_hooks s0) k subid topics t) existed t).
   - pose proof (replay_retained_dframe c k (hs_sub (b_hooks s0) k subid topics t) (set_subs d' s0)) as [F D].
     destruct (replay_retained c k (hs_sub (b_hooks s0) k subid topics t) (set_subs d' s0)) as [s2 o2].
     cbn [fst snd] in *. split; [|split; [|split]].
@@ -391,4 +415,1098 @@ Proof.
   destruct (fold_left (hs_body c k (k_v k =? 5) (sub_subid k props) topics) topics (s, [], [])) as [[s' o] codes].
   cbn [fst snd] in H. destruct H as (P & S & C & o' & O & D). cbn [app] in C, O. subst codes o.
   exists s', o'. repeat split; assumption.
+Qed.
+
+(* ---- 2.4 the verdicts one by one ---- *)
+
+Lemma hs_reject h k v5 subid topics t cd :
+  sub_verdict h (k_cid k) (tq_name t) = SReject cd ->
+  hs_code h k v5 subid topics t = (if v5 then cd else 128).
+Proof. unfold hs_code. now intros ->. Qed.
+
+Lemma hs_downgrade h k v5 subid topics t q :
+  sub_verdict h (k_cid k) (tq_name t) = SQos q ->
+  hs_sub h k subid topics t = with_sub_qos q (req_sub subid topics t) /\
+  hs_code h k v5 subid topics t = cap_code k v5 subid (with_sub_qos q (req_sub subid topics t)).
+Proof. unfold hs_code, hs_sub. now intros ->. Qed.
+
+(* a topic the hook has no opinion on is treated exactly as it is without any hook *)
+Lemma hs_untouched h k v5 subid topics t :
+  sub_verdict h (k_cid k) (tq_name t) = SAccept ->
+  hs_sub h k subid topics t = hs_sub no_hooks k subid topics t /\
+  hs_sub h k subid topics t = req_sub subid topics t /\
+  hs_code h k v5 subid topics t = hs_code no_hooks k v5 subid topics t.
+Proof. unfold hs_code, hs_sub. rewrite !sub_verdict_no_hooks. now intros ->. Qed.
+
+(* when nothing is switched off for the client the broker's own checks grant what is asked *)
+Lemma cap_code_plain k v5 subid sb :
+  v5 = false \/ (k_shared k = true /\ k_subid k = true /\ k_wildcard k = true) ->
+  cap_code k v5 subid sb = s_qos sb.
+Proof.
+  unfold cap_code. intros [->|(-> & -> & ->)]; [reflexivity|]. cbn [negb]. now rewrite !andb_false_r.
+Qed.
+
+Lemma cap_code_cases k v5 subid sb :
+  cap_code k v5 subid sb = s_qos sb \/ cap_code k v5 subid sb = 158 \/ cap_code k v5 subid sb = 161 \/
+  cap_code k v5 subid sb = 162.
+Proof.
+  unfold cap_code.
+  destruct (v5 && negb (k_wildcard k) && has_wildcard (s_filter sb)); [auto|].
+  destruct (v5 && negb (k_subid k) && negb (subid =? 0)); [auto|].
+  destruct (v5 && negb (is_empty (s_share sb)) && negb (k_shared k)); auto.
+Qed.
+
+(* ---- 2.5 the store seen through the flat specification (Model/SubSpec.v) ---- *)
+
+(* the accepted subscriptions of the packet, in order *)
+Definition hs_subs (h : hooks) (k : conn) (v5 : bool) (subid : N) (topics l : list topic_req) : list sub :=
+  flat_map (fun t => if hs_code h k v5 subid topics t <? 128 then [hs_sub h k subid topics t] else []) l.
+
+Definition hs_ops (h : hooks) (k : conn) (v5 : bool) (subid : N) (topics : list topic_req) : list op :=
+  map (OSub (k_cid k)) (hs_subs h k v5 subid topics topics).
+
+Lemma hs_store_ops h k v5 subid topics : forall l d,
+  hs_store h k v5 subid topics l d = fold_left db_step (map (OSub (k_cid k)) (hs_subs h k v5 subid topics l)) d.
+Proof.
+  unfold hs_store, hs_subs. induction l as [|t l IH]; intros d; cbn [fold_left flat_map map]; [reflexivity|].
+  rewrite map_app, fold_left_app, IH.
+  destruct (hs_code h k v5 subid topics t <? 128); reflexivity.
+Qed.
+
+Lemma in_hs_subs h k v5 subid topics l sb :
+  In sb (hs_subs h k v5 subid topics l) <->
+  exists t, In t l /\ hs_code h k v5 subid topics t < 128 /\ sb = hs_sub h k subid topics t.
+Proof.
+  unfold hs_subs. rewrite in_flat_map. split.
+  - intros (t & Hin & Hs). destruct (hs_code h k v5 subid topics t <? 128) eqn:E; [|destruct Hs].
+    destruct Hs as [<-|[]]. exists t. repeat split; [exact Hin|lia].
+  - intros (t & Hin & Hc & ->). exists t. split; [exact Hin|].
+    destruct (hs_code h k v5 subid topics t <? 128) eqn:E; [now left|lia].
+Qed.
+
+Lemma last_with_name_name name : forall l d, tq_name d = name -> tq_name (last_with_name name l d) = name.
+Proof.
+  induction l as [|t l IH]; intros d Hd; cbn [last_with_name]; [exact Hd|]. apply IH.
+  destruct (str_eqb_spec (tq_name t) name) as [E|E]; [exact E|exact Hd].
+Qed.
+
+Lemma last_with_name_default name : forall l d d',
+  (exists t, In t l /\ tq_name t = name) -> last_with_name name l d = last_with_name name l d'.
+Proof.
+  induction l as [|t0 l IH]; intros d d' (t & Hin & Hn); [destruct Hin|]. cbn [last_with_name].
+  destruct (str_eqb_spec (tq_name t0) name) as [E|E]; [reflexivity|].
+  apply IH. exists t. split; [|exact Hn]. destruct Hin as [->|Hin]; [contradiction|exact Hin].
+Qed.
+
+(* the key under which the subscription of t is stored: its share name and filter *)
+Definition tkey (cid : str) (t : topic_req) : skey := (cid, fst (split_topic (tq_name t)), snd (split_topic (tq_name t))).
+Definition sub_key (c : str) (sb : sub) : skey := (c, s_share sb, s_filter sb).
+
+Lemma sub_of_req_key t id :
+  s_share (sub_of_req t id) = fst (split_topic (tq_name t)) /\ s_filter (sub_of_req t id) = snd (split_topic (tq_name t)).
+Proof. unfold sub_of_req. destruct (split_topic (tq_name t)) as [g f]. split; reflexivity. Qed.
+
+Lemma hs_sub_key h k subid topics t : sub_key (k_cid k) (hs_sub h k subid topics t) = tkey (k_cid k) t.
+Proof.
+  unfold sub_key, tkey, hs_sub, req_sub.
+  destruct (sub_of_req_key (last_with_name (tq_name t) topics t) subid) as [E1 E2].
+  rewrite (last_with_name_name (tq_name t) topics t eq_refl) in E1, E2.
+  destruct (sub_verdict h (k_cid k) (tq_name t)); cbn [with_sub_qos s_share s_filter]; now rewrite E1, E2.
+Qed.
+
+(* two entries of the packet with the same name get the same subscription and the same code *)
+Lemma hs_same_name h k v5 subid topics t t' :
+  In t topics -> In t' topics -> tq_name t' = tq_name t ->
+  hs_sub h k subid topics t' = hs_sub h k subid topics t /\
+  hs_code h k v5 subid topics t' = hs_code h k v5 subid topics t.
+Proof.
+  intros Hin Hin' Hn.
+  assert (E : hs_sub h k subid topics t' = hs_sub h k subid topics t).
+  { unfold hs_sub, req_sub. rewrite Hn.
+    rewrite (last_with_name_default (tq_name t) topics t' t) by (exists t; now split). reflexivity. }
+  split; [exact E|]. unfold hs_code. now rewrite Hn, E.
+Qed.
+
+Lemma hs_ops_wf h k v5 subid topics : k_cid k <> [] -> wf_ops (hs_ops h k v5 subid topics) = true.
+Proof.
+  intros Hne. unfold wf_ops, hs_ops. apply forallb_forall. intros o Hin.
+  apply in_map_iff in Hin as (sb & <- & Hin). apply in_hs_subs in Hin as (t & _ & _ & ->).
+  cbn [wf_op]. apply andb_true_intro. split; [now apply negb_true_iff, is_empty_false|].
+  pose proof (hs_sub_key h k subid topics t) as E. unfold sub_key, tkey in E. injection E as E _. rewrite E.
+  apply split_topic_no_slash.
+Qed.
+
+(* the value of key K after the subscriptions of l have been written over a store in which it was acc *)
+Fixpoint last_sub (K : skey) (c : str) (l : list sub) (acc : option sub) : option sub :=
+  match l with
+  | [] => acc
+  | sb :: r => last_sub K c r (if skey_eqb K (sub_key c sb) then Some sb else acc)
+  end.
+
+Lemma sp_get_subs K c : forall l sp,
+  sp_get K (fold_left spec_step (map (OSub c) l) sp) = last_sub K c l (sp_get K sp).
+Proof.
+  induction l as [|sb l IH]; intros sp; cbn [map fold_left last_sub]; [reflexivity|].
+  rewrite IH. cbn [spec_step]. rewrite sp_get_set. reflexivity.
+Qed.
+
+Lemma last_sub_cases K c : forall l acc,
+  (last_sub K c l acc = acc /\ forall sb, In sb l -> sub_key c sb <> K) \/
+  (exists sb, In sb l /\ sub_key c sb = K /\ last_sub K c l acc = Some sb).
+Proof.
+  induction l as [|sb l IH]; intros acc; cbn [last_sub].
+  - left. split; [reflexivity|]. intros sb [].
+  - destruct (IH (if skey_eqb K (sub_key c sb) then Some sb else acc)) as [[E Hn]|(sb' & Hin & Hk & E)].
+    + destruct (skey_eqb_spec K (sub_key c sb)) as [Ek|Ek].
+      * right. exists sb. split; [now left|]. split; [now symmetry|exact E].
+      * left. split; [exact E|]. intros sb' [<-|Hin]; [congruence|now apply Hn].
+    + right. exists sb'. split; [now right|]. now split.
+Qed.
+
+(* in a packet, every entry stored under the key of t carries the name of t (always so when no two distinct
+   names of the packet denote the same share name and filter, e.g. when none of them starts with "$share/") *)
+Definition name_owns_key (topics : list topic_req) (t : topic_req) : Prop :=
+  forall t', In t' topics -> split_topic (tq_name t') = split_topic (tq_name t) -> tq_name t' = tq_name t.
+
+Lemma plain_names_own_keys topics t :
+  (forall t', In t' topics -> has_prefix SHARE_PREFIX (tq_name t') = false) -> In t topics -> name_owns_key topics t.
+Proof.
+  intros Hp Hin t' Hin' E. rewrite (split_topic_plain _ (Hp t' Hin')), (split_topic_plain _ (Hp t Hin)) in E.
+  now injection E.
+Qed.
+
+Lemma tkey_eq cid t t' : tkey cid t' = tkey cid t -> split_topic (tq_name t') = split_topic (tq_name t).
+Proof.
+  unfold tkey. destruct (split_topic (tq_name t')) as [g' f'], (split_topic (tq_name t)) as [g f]. cbn [fst snd].
+  now intros [= -> ->].
+Qed.
+
+Theorem subscribe_store h k v5 subid topics ops :
+  k_cid k <> [] -> wf_ops ops = true ->
+  let cid := k_cid k in
+  let ops' := ops ++ hs_ops h k v5 subid topics in
+  wf_ops ops' = true /\
+  hs_store h k v5 subid topics topics (db_run ops) = db_run ops' /\
+  (* a key under which the packet installs nothing keeps its entry, or stays absent *)
+  (forall K, (forall t, In t topics -> hs_code h k v5 subid topics t < 128 -> tkey cid t <> K) ->
+             sp_get K (spec_run ops') = sp_get K (spec_run ops)) /\
+  (* an accepted topic is stored as the hook left it *)
+  (forall t, In t topics -> hs_code h k v5 subid topics t < 128 -> name_owns_key topics t ->
+             sp_get (tkey cid t) (spec_run ops') = Some (hs_sub h k subid topics t)) /\
+  (* a refused topic leaves no trace *)
+  (forall t, In t topics -> 128 <= hs_code h k v5 subid topics t -> name_owns_key topics t ->
+             sp_get (tkey cid t) (spec_run ops') = sp_get (tkey cid t) (spec_run ops)).
+Proof.
+  intros Hne Hwf. cbv zeta.
+  assert (Hget : forall K, sp_get K (spec_run (ops ++ hs_ops h k v5 subid topics)) =
+                           last_sub K (k_cid k) (hs_subs h k v5 subid topics topics) (sp_get K (spec_run ops))).
+  { intros K. unfold spec_run, hs_ops. rewrite fold_left_app. apply sp_get_subs. }
+  assert (Hno : forall K, (forall t, In t topics -> hs_code h k v5 subid topics t < 128 -> tkey (k_cid k) t <> K) ->
+                sp_get K (spec_run (ops ++ hs_ops h k v5 subid topics)) = sp_get K (spec_run ops)).
+  { intros K HK. rewrite Hget.
+    destruct (last_sub_cases K (k_cid k) (hs_subs h k v5 subid topics topics) (sp_get K (spec_run ops)))
+      as [[E _]|(sb & Hin & Hk & _)]; [exact E|].
+    apply in_hs_subs in Hin as (t & Hin & Hc & ->). rewrite hs_sub_key in Hk. now elim (HK t Hin Hc). }
+  split; [|split; [|split; [|split]]].
+  - unfold wf_ops in *. rewrite forallb_app, Hwf. now apply hs_ops_wf.
+  - rewrite hs_store_ops. unfold db_run, hs_ops. now rewrite fold_left_app.
+  - exact Hno.
+  - intros t Hin Hc Hown. rewrite Hget.
+    destruct (last_sub_cases (tkey (k_cid k) t) (k_cid k) (hs_subs h k v5 subid topics topics)
+                             (sp_get (tkey (k_cid k) t) (spec_run ops))) as [[_ Hn]|(sb & Hin' & Hk & ->)].
+    + exfalso. apply (Hn (hs_sub h k subid topics t)); [|apply hs_sub_key].
+      apply in_hs_subs. exists t. now repeat split.
+    + apply in_hs_subs in Hin' as (t' & Hin' & _ & ->). rewrite hs_sub_key in Hk.
+      apply tkey_eq in Hk. apply (Hown t' Hin') in Hk.
+      now rewrite (proj1 (hs_same_name h k v5 subid topics t t' Hin Hin' Hk)).
+  - intros t Hin Hc Hown. apply Hno. intros t' Hin' Hc' Hk.
+    apply tkey_eq in Hk. apply (Hown t' Hin') in Hk.
+    rewrite (proj2 (hs_same_name h k v5 subid topics t t' Hin Hin' Hk)) in Hc'. lia.
+Qed.
+
+(* "the store holds it" said of the trie: the lookup by exact filter name (the query the broker's
+   subscription API and `deliver` are built from) returns the entry of the specification *)
+Lemma installed_lookup ops cid f sb :
+  wf_ops ops = true -> cid <> [] -> f <> [] ->
+  sp_get (cid, [], f) (spec_run ops) = Some sb ->
+  exists l, db_iterate (q_name f cid) (db_run ops) = IOk (some_ents l) /\
+            forall c' s', In (c', s') l <-> (c' = cid /\ s' = sb).
+Proof.
+  intros Hwf Hc Hf Hget. destruct (lookup_name_exact ops f cid Hwf Hf) as (l & E & _ & Hl).
+  exists l. split; [exact E|]. intros c' s'. rewrite Hl. unfold want_client. split.
+  - intros [Hg [Hw|Hw]]; [contradiction|]. subst c'. split; [reflexivity|].
+    pose proof (eq_trans (eq_sym Hg) Hget) as X. now injection X.
+  - intros [-> ->]. split; [exact Hget|now right].
+Qed.
+
+Lemma not_installed_lookup ops cid f :
+  wf_ops ops = true -> cid <> [] -> f <> [] ->
+  sp_get (cid, [], f) (spec_run ops) = None ->
+  db_iterate (q_name f cid) (db_run ops) = IOk [].
+Proof.
+  intros Hwf Hc Hf Hget. destruct (lookup_name_exact ops f cid Hwf Hf) as (l & E & _ & Hl).
+  rewrite E. destruct l as [|[c' s'] r]; [reflexivity|]. exfalso.
+  destruct (proj1 (Hl c' s') (or_introl eq_refl)) as [Hg [Hw|Hw]]; [contradiction|]. subst c'.
+  pose proof (eq_trans (eq_sym Hg) Hget) as X. discriminate X.
+Qed.
+
+Lemma installed_lookup_shared ops cid g f sb :
+  wf_ops ops = true -> cid <> [] -> g <> [] -> no_slash g = true -> f <> [] ->
+  sp_get (cid, g, f) (spec_run ops) = Some sb ->
+  exists l, db_iterate (q_sh_name (SHARE_PREFIX ++ g ++ SLASH :: f) cid) (db_run ops) = IOk (some_ents l) /\
+            forall c' s', In (c', s') l <-> (c' = cid /\ s' = sb).
+Proof.
+  intros Hwf Hc Hg Hns Hf Hget. destruct (sh_lookup_name_exact ops g f cid Hwf Hg Hns Hf) as (l & E & _ & Hl).
+  exists l. split; [exact E|]. intros c' s'. rewrite Hl. unfold want_client. split.
+  - intros [Hg' [Hw|Hw]]; [contradiction|]. subst c'. split; [reflexivity|].
+    pose proof (eq_trans (eq_sym Hg') Hget) as X. now injection X.
+  - intros [-> ->]. split; [exact Hget|now right].
+Qed.
+
+(* the i-th code of the SUBACK is the code of the i-th topic *)
+Lemma suback_nth (f : topic_req -> N) topics i t :
+  nth_error topics i = Some t -> nth_error (map f topics) i = Some (f t).
+Proof. intros H. now apply map_nth_error. Qed.
+
+(* ---- 2.6 Target 2 ---- *)
+Theorem subscribe_hook_enforced c k pid props topics s ops :
+  k_cid k <> [] -> wf_ops ops = true -> b_subs s = db_run ops ->
+  sub_refused k props s = false ->
+  let h := b_hooks s in
+  let cid := k_cid k in
+  let v5 := k_v k =? 5 in
+  let subid := sub_subid k props in
+  match h_sub_all h with
+  | Some code =>
+      (* (a) *)
+      handle_subscribe c k pid props topics s =
+      HOk s [OSend c (KSuback pid (map (fun _ => if v5 then code else 128) topics) [])]
+  | None =>
+      (* (b) *)
+      exists s' o,
+        let ops' := ops ++ hs_ops h k v5 subid topics in
+        handle_subscribe c k pid props topics s =
+          HOk s' (o ++ [OSend c (KSuback pid (map (hs_code h k v5 subid topics) topics) [])]) /\
+        only_drops o /\ sproj s' = sproj s /\
+        b_subs s' = db_run ops' /\ wf_ops ops' = true /\
+        (forall t, In t topics ->
+           match sub_verdict h cid (tq_name t) with
+           | SReject cd =>
+               hs_code h k v5 subid topics t = (if v5 then cd else 128) /\
+               (128 <= (if v5 then cd else 128) -> name_owns_key topics t ->
+                sp_get (tkey cid t) (spec_run ops') = sp_get (tkey cid t) (spec_run ops))
+           | SQos q =>
+               let sb := with_sub_qos q (req_sub subid topics t) in
+               hs_code h k v5 subid topics t = cap_code k v5 subid sb /\
+               (cap_code k v5 subid sb < 128 -> name_owns_key topics t ->
+                sp_get (tkey cid t) (spec_run ops') = Some sb) /\
+               (128 <= cap_code k v5 subid sb -> name_owns_key topics t ->
+                sp_get (tkey cid t) (spec_run ops') = sp_get (tkey cid t) (spec_run ops))
+           | SAccept =>
+               let sb := req_sub subid topics t in
+               hs_code h k v5 subid topics t = hs_code no_hooks k v5 subid topics t /\
+               hs_code h k v5 subid topics t = cap_code k v5 subid sb /\
+               (cap_code k v5 subid sb < 128 -> name_owns_key topics t ->
+                sp_get (tkey cid t) (spec_run ops') = Some sb) /\
+               (128 <= cap_code k v5 subid sb -> name_owns_key topics t ->
+                sp_get (tkey cid t) (spec_run ops') = sp_get (tkey cid t) (spec_run ops))
+           end) /\
+        (forall K, (forall t, In t topics -> tkey cid t <> K) -> sp_get K (spec_run ops') = sp_get K (spec_run ops))
+  end.
+Proof.
+  intros Hne Hwf Hd Hr. cbv zeta.
+  destruct (h_sub_all (b_hooks s)) as [code|] eqn:Ha; [now apply subscribe_all_rejected|].
+  destruct (subscribe_spec c k pid props topics s Hr Ha) as (s' & o & E & D & P & S). cbv zeta in E, S.
+  set (h := b_hooks s) in *. set (v5 := k_v k =? 5) in *. set (subid := sub_subid k props) in *.
+  destruct (subscribe_store h k v5 subid topics ops Hne Hwf) as (W & R & Hno & Hacc & Hrej). cbv zeta in *.
+  exists s', o. split; [exact E|]. split; [exact D|]. split; [exact P|].
+  split; [now rewrite S, Hd|]. split; [exact W|]. split.
+  - intros t Hin. destruct (sub_verdict h (k_cid k) (tq_name t)) as [|cd|q] eqn:Ev.
+    + destruct (hs_untouched h k v5 subid topics t Ev) as (_ & E2 & E3).
+      assert (E4 : hs_code h k v5 subid topics t = cap_code k v5 subid (req_sub subid topics t)).
+      { unfold hs_code. now rewrite Ev, E2. }
+      split; [exact E3|]. split; [exact E4|]. split.
+      * intros Hc Hown. rewrite <- E2. apply Hacc; [exact Hin| |exact Hown]. now rewrite E4.
+      * intros Hc Hown. apply Hrej; [exact Hin| |exact Hown]. now rewrite E4.
+    + pose proof (hs_reject h k v5 subid topics t cd Ev) as E1. split; [exact E1|].
+      intros Hc Hown. apply Hrej; [exact Hin| |exact Hown]. now rewrite E1.
+    + destruct (hs_downgrade h k v5 subid topics t q Ev) as (E1 & E2). split; [exact E2|]. split.
+      * intros Hc Hown. rewrite <- E1. apply Hacc; [exact Hin| |exact Hown]. now rewrite E2.
+      * intros Hc Hown. apply Hrej; [exact Hin| |exact Hown]. now rewrite E2.
+  - intros K HK. apply Hno. intros t Hin _. now apply HK.
+Qed.
+
+(* the same for the scenario event: a SUBSCRIBE with valid filters arriving on a connected socket *)
+Lemma subscribe_event c k pid props topics s :
+  nget c (b_conns s) = Some k -> k_phase k = PhConnected ->
+  forallb (fun t => let '(g, f) := split_topic (tq_name t) in valid_filter_spec f) topics = true ->
+  forall s' o, handle_subscribe c k pid props topics s = HOk s' o ->
+  step_event s (ESend c (KSubscribe pid props topics)) = (s', o).
+Proof.
+  intros Hk Hp Hv s' o E. cbn [step_event]. rewrite Hk, Hp. cbn [handle_packet]. now rewrite Hv, E.
+Qed.
+
+(* a packet that its handler accepts, as a scenario event on a connected socket *)
+Lemma send_event_ok c k p s s' o :
+  nget c (b_conns s) = Some k -> k_phase k = PhConnected ->
+  handle_packet c k p s = HOk s' o -> step_event s (ESend c p) = (s', o).
+Proof. intros Hk Hp E. cbn [step_event]. now rewrite Hk, Hp, E. Qed.
+
+(* ================================================================== *)
+(* 3. PUBLISH                                                          *)
+(* ================================================================== *)
+
+(* OnMsgArrived for a message on topic t (pub_action of Proofs/BrokerQos2P.v reads it for the message the
+   topic-alias stage produced) *)
+Definition msg_verdict (h : hooks) (t : str) : msg_action :=
+  if h_msg_on h then opt_or (aget t (h_msg h)) MAccept else MAccept.
+
+Lemma pub_action_verdict m s : pub_action m s = msg_verdict (b_hooks s) (m_topic m).
+Proof. reflexivity. Qed.
+
+(* a refusing verdict and the error it hands to the acknowledgement: reject = Some code, drop = none *)
+Definition refusal (a : msg_action) : option (option N) :=
+  match a with MReject cd => Some (Some cd) | MDrop => Some None | _ => None end.
+
+(* the reason code of the PUBACK / PUBREC after a refusal: towards a v5 publisher the hook's code, or 16
+   ("no matching subscribers") when the hook dropped the message silently; always 0 towards a v3 publisher *)
+Lemma pub_code_refused v5 err :
+  pub_code v5 false err = if v5 then match err with Some cd => cd | None => 16 end else 0.
+Proof. reflexivity. Qed.
+
+(* what forwarding a message means when no hook interferes *)
+Definition fwd_plain (k : conn) (m : msg) (s : st) : st * list out * bool * option N :=
+  let '(s', o, mt) := deliver (k_cid k) m (retain_update m s) in (s', o, mt, None).
+
+Lemma pub_fwd_refused k m s err :
+  refusal (msg_verdict (b_hooks s) (m_topic m)) = Some err -> pub_fwd k m false s = (s, [], false, err).
+Proof.
+  unfold pub_fwd. rewrite pub_action_verdict.
+  destruct (msg_verdict (b_hooks s) (m_topic m)); cbn [refusal]; intros [= <-]; reflexivity.
+Qed.
+
+Lemma pub_fwd_accepted k m s :
+  msg_verdict (b_hooks s) (m_topic m) = MAccept -> pub_fwd k m false s = fwd_plain k m s.
+Proof. unfold pub_fwd. rewrite pub_action_verdict. now intros ->. Qed.
+
+Lemma pub_fwd_rewritten k m s t p q :
+  msg_verdict (b_hooks s) (m_topic m) = MRewrite t p q ->
+  pub_fwd k m false s = fwd_plain k (rewrite_msg t p q m) s.
+Proof. unfold pub_fwd. rewrite pub_action_verdict. now intros ->. Qed.
+
+Lemma pub_fwd_no_hook k m s : h_msg_on (b_hooks s) = false -> pub_fwd k m false s = fwd_plain k m s.
+Proof. intros H. apply pub_fwd_accepted. unfold msg_verdict. now rewrite H. Qed.
+
+(* the bookkeeping before and after the forwarding stage touches only the unack sets and the publisher's
+   connection record *)
+Lemma pub_mark_fresh c k v5 qos pid s :
+  (qos = 2 -> ~ In pid (Uof (k_cid k) s)) ->
+  exists s1, pub_mark c k v5 qos pid s = (s1, false) /\ qproj s1 = qproj s.
+Proof.
+  intros Hn. destruct (qos =? 2) eqn:E.
+  - apply N.eqb_eq in E. subst qos. rewrite pub_mark_qos2. cbv zeta.
+    rewrite (memN_false _ _ (Hn eq_refl)). eexists. split; reflexivity.
+  - rewrite (pub_mark_not2 _ _ _ _ _ _ E). eexists. split; reflexivity.
+Qed.
+
+Lemma pub_finish_qproj c k v5 qos pid s o mt err :
+  exists s', pub_finish c k v5 qos pid (s, o, mt, err) = HOk s' (o ++ pub_ack c qos pid (pub_code v5 mt err)) /\
+             qproj s' = qproj s.
+Proof.
+  unfold pub_finish, pub_ack.
+  match goal with |- context [nget c (b_conns ?X)] =>
+    assert (Q : qproj X = qproj s) by (destruct ((qos =? 2) && (128 <=? pub_code v5 mt err)); reflexivity);
+    destruct (nget c (b_conns X)) as [k1|] end.
+  - match goal with |- context [if ?b then upd_conn _ _ _ else _] => destruct b end;
+      eexists; (split; [reflexivity|exact Q]).
+  - eexists. split; [reflexivity|exact Q].
+Qed.
+
+(* handle_packet for a PUBLISH that passes the protocol checks and is not a QoS 2 retransmission: the three
+   stages with the duplicate flag resolved *)
+Lemma handle_packet_publish_fresh c k dup qos retain topic payload pid props s :
+  let v5 := k_v k =? 5 in
+  pub_accepts k qos retain topic props = true ->
+  (qos = 2 -> ~ In pid (Uof (k_cid k) s)) ->
+  exists k' m s1,
+    pub_alias v5 (charge k qos) topic props (msg_of_publish v5 dup qos retain topic payload pid props) = inl (Some (k', m)) /\
+    k_cid k' = k_cid k /\ qproj s1 = qproj s /\
+    handle_packet c k (KPublish dup qos retain topic payload pid props) s = pub_finish c k' v5 qos pid (pub_fwd k' m false s1).
+Proof.
+  intros v5 Hacc Hn.
+  destruct (handle_packet_publish c k dup qos retain topic payload pid props s Hacc) as (k' & m & Hal & E).
+  fold v5 in Hal, E. pose proof (pub_alias_cid _ _ _ _ _ _ _ Hal) as (Ec & _).
+  destruct (charge_fields k qos) as (Ec2 & _). rewrite Ec2 in Ec.
+  destruct (pub_mark_fresh c k' v5 qos pid (upd_conn c k' (upd_conn c (charge k qos) s))) as (s1 & Em & Q).
+  { rewrite Ec. exact Hn. }
+  exists k', m, s1. split; [exact Hal|]. split; [exact Ec|]. split; [exact Q|].
+  rewrite E. cbv zeta. now rewrite Em.
+Qed.
+
+(* Target 3a.  The hook rejects or drops the PUBLISH: the publisher gets the acknowledgement of its QoS with
+   the code above and nothing else is written; every table except the unack sets and the connection records -
+   queues, retained store, subscriptions, sessions, wills, even the tag and pick counters - is as before:
+   `deliver` and `retain_update` have not been applied. *)
+Theorem publish_refused_by_hook c k s dup qos retain topic payload pid props k' m err :
+  let v5 := k_v k =? 5 in
+  pub_accepts k qos retain topic props = true ->
+  (qos = 2 -> ~ In pid (Uof (k_cid k) s)) ->
+  pub_alias v5 (charge k qos) topic props (msg_of_publish v5 dup qos retain topic payload pid props) = inl (Some (k', m)) ->
+  refusal (msg_verdict (b_hooks s) (m_topic m)) = Some err ->
+  exists s',
+    handle_packet c k (KPublish dup qos retain topic payload pid props) s =
+      HOk s' (pub_ack c qos pid (if v5 then match err with Some cd => cd | None => 16 end else 0)) /\
+    qproj s' = qproj s.
+Proof.
+  intros v5 Hacc Hn Hal Hv.
+  destruct (handle_packet_publish_fresh c k dup qos retain topic payload pid props s Hacc Hn)
+    as (k'' & m'' & s1 & Hal' & _ & Q1 & E).
+  fold v5 in Hal', E. rewrite Hal in Hal'. injection Hal' as <- <-.
+  rewrite E, (pub_fwd_refused k' m s1 err) by (now rewrite (qp_hooks _ _ Q1)).
+  destruct (pub_finish_qproj c k' v5 qos pid s1 [] false err) as (s' & E' & Q').
+  exists s'. split; [rewrite E'; reflexivity|congruence].
+Qed.
+
+(* the usual case: no topic alias in the packet, so the message is the packet's and the hook is asked about
+   the packet's topic *)
+Corollary publish_refused_by_hook_plain c k s dup qos retain topic payload pid props err :
+  let v5 := k_v k =? 5 in
+  pub_accepts k qos retain topic props = true ->
+  (qos = 2 -> ~ In pid (Uof (k_cid k) s)) ->
+  (if v5 then p_alias props else None) = None ->
+  refusal (msg_verdict (b_hooks s) topic) = Some err ->
+  exists s',
+    handle_packet c k (KPublish dup qos retain topic payload pid props) s =
+      HOk s' (pub_ack c qos pid (if v5 then match err with Some cd => cd | None => 16 end else 0)) /\
+    qproj s' = qproj s.
+Proof.
+  intros v5 Hacc Hn Hna Hv.
+  eapply publish_refused_by_hook; [exact Hacc|exact Hn|apply pub_alias_none; exact Hna|exact Hv].
+Qed.
+
+(* Target 3b.  The hook rewrites the message to m' = rewrite_msg t p q m: the handler is the explicit
+   composition  bookkeeping ; retain_update m' ; deliver m' ; acknowledgement  - the forwarding stage is
+   fwd_plain, the one an un-hooked broker applies (pub_fwd_no_hook), applied to m'. *)
+Theorem publish_rewritten_is_what_is_seen c k s dup qos retain topic payload pid props k' m t p q :
+  let v5 := k_v k =? 5 in
+  pub_accepts k qos retain topic props = true ->
+  (qos = 2 -> ~ In pid (Uof (k_cid k) s)) ->
+  pub_alias v5 (charge k qos) topic props (msg_of_publish v5 dup qos retain topic payload pid props) = inl (Some (k', m)) ->
+  msg_verdict (b_hooks s) (m_topic m) = MRewrite t p q ->
+  let m' := rewrite_msg t p q m in
+  exists s1,
+    qproj s1 = qproj s /\
+    handle_packet c k (KPublish dup qos retain topic payload pid props) s =
+      (let '(s2, o, mt) := deliver (k_cid k) m' (retain_update m' s1) in
+       pub_finish c k' v5 qos pid (s2, o, mt, None)).
+Proof.
+  intros v5 Hacc Hn Hal Hv m'.
+  destruct (handle_packet_publish_fresh c k dup qos retain topic payload pid props s Hacc Hn)
+    as (k'' & m'' & s1 & Hal' & Ec & Q1 & E).
+  fold v5 in Hal', E. rewrite Hal in Hal'. injection Hal' as <- <-.
+  exists s1. split; [exact Q1|].
+  rewrite E, (pub_fwd_rewritten k' m s1 t p q) by (now rewrite (qp_hooks _ _ Q1)).
+  unfold fwd_plain. rewrite Ec. fold m'.
+  destruct (deliver (k_cid k) m' (retain_update m' s1)) as [[s2 o] mt]. reflexivity.
+Qed.
+
+(* the same seen from outside: outputs and tables *)
+Corollary publish_rewritten_outputs c k s dup qos retain topic payload pid props k' m t p q :
+  let v5 := k_v k =? 5 in
+  pub_accepts k qos retain topic props = true ->
+  (qos = 2 -> ~ In pid (Uof (k_cid k) s)) ->
+  pub_alias v5 (charge k qos) topic props (msg_of_publish v5 dup qos retain topic payload pid props) = inl (Some (k', m)) ->
+  msg_verdict (b_hooks s) (m_topic m) = MRewrite t p q ->
+  let m' := rewrite_msg t p q m in
+  exists s1 s2 s3 o mt,
+    qproj s1 = qproj s /\ deliver (k_cid k) m' (retain_update m' s1) = (s2, o, mt) /\
+    handle_packet c k (KPublish dup qos retain topic payload pid props) s =
+      HOk s3 (o ++ pub_ack c qos pid (if v5 then if mt then 0 else 16 else 0)) /\
+    qproj s3 = qproj s2 /\
+    b_ret s3 = b_ret (retain_update m' s).
+Proof.
+  intros v5 Hacc Hn Hal Hv m'.
+  destruct (publish_rewritten_is_what_is_seen c k s dup qos retain topic payload pid props k' m t p q Hacc Hn Hal Hv)
+    as (s1 & Q1 & E). fold v5 m' in E.
+  pose proof (deliver_frame (k_cid k) m' (retain_update m' s1)) as [F _].
+  destruct (deliver (k_cid k) m' (retain_update m' s1)) as [[s2 o] mt] eqn:Ed. cbn [fst] in F.
+  destruct (pub_finish_qproj c k' v5 qos pid s2 o mt None) as (s3 & E3 & Q3).
+  exists s1, s2, s3, o, mt. split; [exact Q1|]. split; [exact Ed|]. split; [rewrite E, E3; reflexivity|].
+  split; [exact Q3|].
+  rewrite (qp_ret _ _ Q3), (df_ret _ _ F). unfold retain_update.
+  destruct (m_retained m'); [|apply (qp_ret _ _ Q1)]. cbn [b_ret set_ret]. now rewrite (qp_ret _ _ Q1).
+Qed.
+
+(* ================================================================== *)
+(* 4. the will                                                         *)
+(* ================================================================== *)
+
+(* OnWillPublish for the will of client cid *)
+Definition will_verdict (h : hooks) (cid : str) : msg_action :=
+  if h_will_on h then opt_or (aget cid (h_will h)) MAccept else MAccept.
+
+Lemma will_action_verdict cid s : will_action cid s = will_verdict (b_hooks s) cid.
+Proof. reflexivity. Qed.
+
+(* dropped (or refused): send_will is the identity - no queue, no retained message, nothing at all changes and
+   nothing is written *)
+Theorem will_dropped cid m s err :
+  refusal (will_verdict (b_hooks s) cid) = Some err -> send_will cid m s = (s, []).
+Proof.
+  unfold send_will. rewrite will_action_verdict.
+  destruct (will_verdict (b_hooks s) cid); cbn [refusal]; intros [= <-]; reflexivity.
+Qed.
+
+(* rewritten: exactly retain_update and deliver of the rewritten will *)
+Theorem will_rewritten cid m s t p q :
+  will_verdict (b_hooks s) cid = MRewrite t p q ->
+  let m' := with_topic_payload_qos t p q m in
+  send_will cid m s = (let '(s', o, _) := deliver cid m' (retain_update m' s) in (s', o)).
+Proof. unfold send_will. rewrite will_action_verdict. now intros ->. Qed.
+
+(* untouched: the registered will *)
+Theorem will_untouched cid m s :
+  will_verdict (b_hooks s) cid = MAccept ->
+  send_will cid m s = (let '(s', o, _) := deliver cid m (retain_update m s) in (s', o)).
+Proof. unfold send_will. rewrite will_action_verdict. now intros ->. Qed.
+
+(* the edit touches topic, payload and QoS only *)
+Lemma will_rewrite_fields t p q m :
+  let m' := with_topic_payload_qos t p q m in
+  m_topic m' = t /\ m_payload m' = p /\ m_qos m' = q /\ m_retained m' = m_retained m /\ m_dup m' = m_dup m /\
+  m_ctype m' = m_ctype m /\ m_corr m' = m_corr m /\ m_expiry m' = m_expiry m /\ m_pfmt m' = m_pfmt m /\
+  m_resp m' = m_resp m /\ m_uprops m' = m_uprops m.
+Proof. repeat split. Qed.
+
+Lemma pub_rewrite_fields t p q m :
+  let m' := rewrite_msg t p q m in
+  m_topic m' = t /\ m_payload m' = p /\ m_qos m' = q /\ m_retained m' = m_retained m /\ m_dup m' = m_dup m /\
+  m_ctype m' = m_ctype m /\ m_corr m' = m_corr m /\ m_expiry m' = m_expiry m /\ m_pfmt m' = m_pfmt m /\
+  m_resp m' = m_resp m /\ m_uprops m' = m_uprops m.
+Proof. repeat split. Qed.
+
+(* Target 4 in one statement *)
+Theorem will_hook_enforced cid m s :
+  match will_verdict (b_hooks s) cid with
+  | MDrop | MReject _ => send_will cid m s = (s, [])
+  | MRewrite t p q =>
+      let m' := with_topic_payload_qos t p q m in
+      send_will cid m s = (let '(s', o, _) := deliver cid m' (retain_update m' s) in (s', o)) /\
+      b_ret (fst (send_will cid m s)) = b_ret (retain_update m' s)
+  | MAccept =>
+      send_will cid m s = (let '(s', o, _) := deliver cid m (retain_update m s) in (s', o)) /\
+      b_ret (fst (send_will cid m s)) = b_ret (retain_update m s)
+  end.
+Proof.
+  destruct (will_verdict (b_hooks s) cid) as [|cd| |t p q] eqn:Ev.
+  - rewrite (will_untouched cid m s Ev). split; [reflexivity|].
+    pose proof (deliver_frame cid m (retain_update m s)) as [F _].
+    destruct (deliver cid m (retain_update m s)) as [[s' o] mt]. cbn [fst] in *. apply (df_ret _ _ F).
+  - apply (will_dropped cid m s (Some cd)). now rewrite Ev.
+  - apply (will_dropped cid m s None). now rewrite Ev.
+  - cbv zeta. rewrite (will_rewritten cid m s t p q Ev). cbv zeta. split; [reflexivity|].
+    set (m' := with_topic_payload_qos t p q m).
+    pose proof (deliver_frame cid m' (retain_update m' s)) as [F _].
+    destruct (deliver cid m' (retain_update m' s)) as [[s' o] mt]. cbn [fst] in *. apply (df_ret _ _ F).
+Qed.
+
+(* the call site that matters most - the connection of a client with an armed, undelayed will goes away
+   (will_immediate of Proofs/BrokerWillP.v) - under a dropping hook: unregister writes nothing and is the
+   plain end of a session (ur_finish) on the untouched state *)
+Theorem will_dropped_at_unregister c k s se w err :
+  aget (k_cid k) (b_sessions s) = Some se -> se_will se = Some w -> k_clean_will k = false ->
+  ur_delay k se s = 0 \/ ur_store k se s = false ->
+  refusal (will_verdict (b_hooks s) (k_cid k)) = Some err ->
+  unregister c k s = ur_finish (k_cid k) se (BrokerWillP.ur_expiry k se s) (ur_store k se s) s [] /\
+  snd (unregister c k s) = [] /\
+  b_ret (fst (unregister c k s)) = b_ret s.
+Proof.
+  intros Hse Hw Hcw Hnow Hv.
+  destruct (will_immediate c k s se w Hse Hw Hcw Hnow) as [E _].
+  rewrite (will_dropped (k_cid k) w s err Hv) in E. rewrite E. split; [reflexivity|].
+  unfold ur_finish. destruct (ur_store k se s); split; reflexivity.
+Qed.
+
+(* ================================================================== *)
+(* 5. non-vacuity, and the statements that are false as first written  *)
+(* ================================================================== *)
+
+Definition ex_A : str := [97].  Definition ex_B : str := [98].  Definition ex_D : str := [100].
+Definition ex_Q : str := [113]. Definition ex_U : str := [117]. Definition ex_V : str := [118].
+Definition ex_X : str := [120]. Definition ex_Y : str := [121]. Definition ex_Z : str := [122].
+(* ex_T "t", ex_S "s", ex_P "p" (Proofs/BrokerQos2P.v), ex_W "w" (Proofs/BrokerWillP.v) *)
+
+(* a hooks record with every kind of verdict:
+   - authentication: user "u" / password "p" is let in, user "v" / password "p" gets code 4, everybody else 134;
+   - OnSubscribe for client "s": "a" refused with 135, "b" down-graded to QoS 0, "d" "refused" with the
+     non-failure code 1;
+   - OnMsgArrived: "x" refused with 135, "q" "refused" with code 1, "y" dropped, "z" rewritten to topic "t",
+     payload [9], QoS 0;
+   - OnWillPublish: the will of "w" is dropped, that of "v" rewritten to topic "t", payload [7], QoS 0 *)
+Definition ex_hooks : hooks :=
+  {| h_auth := Some ([(ex_U, ex_P, 0); (ex_V, ex_P, 4)], 134);
+     h_sub_all := None;
+     h_sub := [(ex_S, ex_A, SReject 135); (ex_S, ex_B, SQos 0); (ex_S, ex_D, SReject 1)];
+     h_msg := [(ex_X, MReject 135); (ex_Q, MReject 1); (ex_Y, MDrop); (ex_Z, MRewrite ex_T [9] 0)]; h_msg_on := true;
+     h_will := [(ex_W, MDrop); (ex_V, MRewrite ex_T [7] 0)]; h_will_on := true |}.
+
+Definition ex_hooks_all : hooks :=
+  {| h_auth := None; h_sub_all := Some 135; h_sub := []; h_msg := []; h_msg_on := false; h_will := []; h_will_on := false |}.
+
+Definition ex_cn (v : N) (cid user pass : str) (will : option willspec) : connect :=
+  {| cn_ver := v; cn_cid := cid; cn_clean := true; cn_keepalive := 0; cn_user := Some user; cn_pass := Some pass;
+     cn_will := will; cn_props := [] |}.
+Definition ex_tr (n : str) (q : N) : topic_req := {| tq_name := n; tq_qos := q; tq_nl := false; tq_rap := false; tq_rh := 0 |}.
+Definition ex_wl (t : str) : willspec := {| w_topic := t; w_payload := [5]; w_qos := 1; w_retain := false; w_props := [] |}.
+
+(* the v5 subscriber "s" is connected on socket 1 *)
+Definition ex_h0 : st := fst (run (st_init BrokerQos2P.ex_cfg ex_hooks []) [EConnect 1 (ex_cn 5 ex_S ex_U ex_P None)]).
+Definition ex_sub1 : pkt := KSubscribe 5 [] [ex_tr ex_A 1; ex_tr ex_B 1; ex_tr ex_T 1; ex_tr ex_D 2].
+(* ... has sent ex_sub1 *)
+Definition ex_h1 : st := fst (run ex_h0 [ESend 1 ex_sub1]).
+(* ... has subscribed to the hooked topics too, and the v5 publisher "p" is connected on socket 2 *)
+Definition ex_h2 : st :=
+  fst (run ex_h1 [ESend 1 (KSubscribe 6 [] [ex_tr ex_X 1; ex_tr ex_Q 1; ex_tr ex_Y 1; ex_tr ex_Z 1]);
+                  EConnect 2 (ex_cn 5 ex_P ex_U ex_P None)]).
+
+(* --- 1. CONNECT --- *)
+Definition ex_bad5 : connect := ex_cn 5 ex_P ex_U ex_X None.     (* wrong password, v5 *)
+Definition ex_bad3 : connect := ex_cn 4 ex_P ex_U ex_X None.     (* wrong password, v3.1.1 *)
+Definition ex_bad3_4 : connect := ex_cn 4 ex_P ex_V ex_P None.   (* the hook says 4, v3.1.1 *)
+
+Example ex_connect_rejected_hyps :
+  unattached ex_h0 2 /\ cid_allowed ex_bad5 ex_h0 = true /\ hc_code ex_bad5 ex_h0 = 134 /\
+  hc_code ex_bad3 ex_h0 = 134 /\ hc_code ex_bad3_4 ex_h0 = 4.
+Proof.
+  split; [intros k H; vm_compute in H; discriminate|]. vm_compute. repeat split.
+Qed.
+
+(* what the clients see: v5 134 as it is; v3.1.1 135 for 134 (not a CONNACK return code of MQTT 3.1.1, where
+   5 is "not authorized": server/client.go sendErrConnack overrides with codes.NotAuthorized = 0x87), 4 as it is *)
+Example ex_connect_rejected_run :
+  snd (run ex_h0 [EConnect 2 ex_bad5]) = [[OSend 2 (KConnack false 134 [])]] /\
+  snd (run ex_h0 [EConnect 2 ex_bad3]) = [[OSend 2 (KConnack false 135 [])]] /\
+  snd (run ex_h0 [EConnect 2 ex_bad3_4]) = [[OSend 2 (KConnack false 4 [])]] /\
+  tables (fst (run ex_h0 [EConnect 2 ex_bad5])) = tables ex_h0 /\
+  aget ex_P (b_sessions (fst (run ex_h0 [EConnect 2 ex_bad5]))) = None.
+Proof. vm_compute. repeat split. Qed.
+
+(* the hypothesis `unattached`: a CONNECT event on a socket that still carries a client first ends that
+   client's connection (the model's way of re-using a socket number), which of course changes the tables *)
+Example ex_connect_on_attached_socket :
+  hc_code ex_bad5 ex_h0 <> 0 /\ ~ unattached ex_h0 1 /\
+  aget ex_S (b_sessions ex_h0) <> None /\
+  aget ex_S (b_sessions (fst (step_event ex_h0 (EConnect 1 ex_bad5)))) = None.
+Proof.
+  split; [vm_compute; discriminate|]. split; [|split; [vm_compute; discriminate|vm_compute; reflexivity]].
+  intros H. destruct (nget 1 (b_conns ex_h0)) as [k|] eqn:E; [|vm_compute in E; discriminate].
+  specialize (H k E). vm_compute in E. injection E as <-. discriminate.
+Qed.
+
+(* --- 2. SUBSCRIBE --- *)
+Example ex_subscribe_hyps :
+  exists k, nget 1 (b_conns ex_h0) = Some k /\ k_phase k = PhConnected /\ k_cid k = ex_S /\ k_cid k <> [] /\
+            wf_ops [] = true /\ b_subs ex_h0 = db_run [] /\ sub_refused k [] ex_h0 = false /\
+            h_sub_all (b_hooks ex_h0) = None /\
+            sub_verdict (b_hooks ex_h0) (k_cid k) ex_A = SReject 135 /\
+            sub_verdict (b_hooks ex_h0) (k_cid k) ex_B = SQos 0 /\
+            sub_verdict (b_hooks ex_h0) (k_cid k) ex_T = SAccept /\
+            name_owns_key [ex_tr ex_A 1; ex_tr ex_B 1; ex_tr ex_T 1; ex_tr ex_D 2] (ex_tr ex_B 1).
+Proof.
+  eexists. split; [vm_compute; reflexivity|]. repeat (split; [vm_compute; try reflexivity; discriminate|]).
+  apply plain_names_own_keys; [|now right; left].
+  intros t' [<-|[<-|[<-|[<-|[]]]]]; reflexivity.
+Qed.
+
+(* the SUBACK reports the verdicts; the refused filter "a" is not in the store, "b" is there with QoS 0, the
+   untouched "t" as asked *)
+Example ex_subscribe_run :
+  snd (run ex_h0 [ESend 1 ex_sub1]) = [[OSend 1 (KSuback 5 [135; 0; 1; 1] [])]] /\
+  db_iterate (q_name ex_A ex_S) (b_subs ex_h1) = IOk [] /\
+  db_iterate (q_name ex_B ex_S) (b_subs ex_h1) = IOk (some_ents [(ex_S, with_sub_qos 0 (sub_of_req (ex_tr ex_B 1) 0))]) /\
+  db_iterate (q_name ex_T ex_S) (b_subs ex_h1) = IOk (some_ents [(ex_S, sub_of_req (ex_tr ex_T 1) 0)]).
+Proof. vm_compute. repeat split. Qed.
+
+(* FALSE as first written ("if the hook rejects topic i with code c ... the store has no new entry"): a v5
+   client whose topic the hook refuses with a code below 128 gets that code in the SUBACK - and the
+   subscription is installed, with the QoS the client asked for.  Hence the hypothesis 128 <= code in
+   subscribe_hook_enforced. *)
+Example ex_subscribe_reject_below_128_installs :
+  sub_verdict ex_hooks ex_S ex_D = SReject 1 /\
+  nth 3 (match snd (run ex_h0 [ESend 1 ex_sub1]) with [[OSend _ (KSuback _ codes _)]] => codes | _ => [] end) 0 = 1 /\
+  db_iterate (q_name ex_D ex_S) (b_subs ex_h0) = IOk [] /\
+  db_iterate (q_name ex_D ex_S) (b_subs ex_h1) = IOk (some_ents [(ex_S, sub_of_req (ex_tr ex_D 2) 0)]).
+Proof. vm_compute. repeat split. Qed.
+
+(* (a): the whole packet fails *)
+Definition ex_ha0 : st := fst (run (st_init BrokerQos2P.ex_cfg ex_hooks_all []) [EConnect 1 (ex_cn 5 ex_S ex_U ex_P None)]).
+Example ex_subscribe_all_rejected_run :
+  h_sub_all (b_hooks ex_ha0) = Some 135 /\
+  snd (run ex_ha0 [ESend 1 ex_sub1]) = [[OSend 1 (KSuback 5 [135; 135; 135; 135] [])]] /\
+  b_subs (fst (run ex_ha0 [ESend 1 ex_sub1])) = b_subs ex_ha0 /\
+  (exists k, nget 1 (b_conns ex_ha0) = Some k /\ sub_refused k [] ex_ha0 = false).
+Proof. vm_compute. repeat split. eexists. split; reflexivity. Qed.
+
+(* --- 3. PUBLISH --- *)
+Definition ex_pub (qos : N) (topic : str) (pid : N) : pkt := KPublish false qos true topic [1] pid [].
+
+Example ex_publish_hyps :
+  exists k, nget 2 (b_conns ex_h2) = Some k /\ k_phase k = PhConnected /\ k_v k = 5 /\
+            pub_accepts k 1 true ex_X [] = true /\ Uof (k_cid k) ex_h2 = [] /\
+            msg_verdict (b_hooks ex_h2) ex_X = MReject 135 /\ msg_verdict (b_hooks ex_h2) ex_Y = MDrop /\
+            msg_verdict (b_hooks ex_h2) ex_Z = MRewrite ex_T [9] 0.
+Proof. eexists. split; [vm_compute; reflexivity|]. vm_compute. repeat split. Qed.
+
+(* the subscriber on socket 1 is subscribed to "x", "y", "z" and "t"; it sees nothing of the refused and the
+   dropped message, and the rewritten one as the hook wrote it *)
+Example ex_publish_run :
+  snd (run ex_h2 [ESend 2 (ex_pub 1 ex_X 7); ESend 2 (ex_pub 1 ex_Y 8); ESend 2 (ex_pub 1 ex_Z 9)]) =
+    [[OSend 2 (KPuback 7 135 [])]; [OSend 2 (KPuback 8 16 [])];
+     [OSend 2 (KPuback 9 0 []); OSend 1 (KPublish false 0 false ex_T [9] 0 [])]] /\
+  b_ret (fst (run ex_h2 [ESend 2 (ex_pub 1 ex_X 7); ESend 2 (ex_pub 1 ex_Y 8)])) = b_ret ex_h2 /\
+  b_queues (fst (run ex_h2 [ESend 2 (ex_pub 1 ex_X 7); ESend 2 (ex_pub 1 ex_Y 8)])) = b_queues ex_h2.
+Proof. vm_compute. repeat split. Qed.
+
+(* the retained store holds the rewritten message (under "t"), nothing under "z" *)
+Example ex_publish_rewritten_retained :
+  let s := fst (run ex_h2 [ESend 2 (ex_pub 1 ex_Z 9)]) in
+  map (fun m => (m_topic m, m_payload m, m_qos m)) (rdb_matched ex_T (b_ret s)) = [(ex_T, [9], 0)] /\
+  rdb_matched ex_Z (b_ret s) = [] /\ rdb_matched ex_T (b_ret ex_h2) = [].
+Proof. vm_compute. repeat split. Qed.
+
+(* FALSE as first written ("the publisher gets the ack with the hook's code") for a retransmitted QoS 2
+   PUBLISH: the hook "refuses" topic "q" with code 1, below 128, so the packet id stays recorded; the
+   retransmission is recognised as a duplicate before the hook is asked and is answered with 16.  Hence the
+   hypothesis qos = 2 -> ~ In pid (Uof cid s). *)
+Example ex_publish_qos2_retransmission :
+  msg_verdict ex_hooks ex_Q = MReject 1 /\
+  snd (run ex_h2 [ESend 2 (KPublish false 2 false ex_Q [1] 8 []); ESend 2 (KPublish true 2 false ex_Q [1] 8 [])]) =
+    [[OSend 2 (KPubrec 8 1 [])]; [OSend 2 (KPubrec 8 16 [])]].
+Proof. vm_compute. repeat split. Qed.
+
+(* --- 4. the will --- *)
+Example ex_will_hyps :
+  refusal (will_verdict (b_hooks ex_h2) ex_W) = Some None /\
+  will_verdict (b_hooks ex_h2) ex_V = MRewrite ex_T [7] 0 /\ will_verdict (b_hooks ex_h2) ex_A = MAccept.
+Proof. vm_compute. repeat split. Qed.
+
+(* three v3 clients with a will lose their connection: the will of "w" (on "t") is dropped; that of "v" (on "b",
+   where "s" subscribes with QoS 0 only) is published as the hook rewrote it, on "t" with payload [7]; that of
+   "a" is published as registered *)
+Example ex_will_run :
+  snd (run ex_h2 [EConnect 3 (ex_cn 4 ex_W ex_U ex_P (Some (ex_wl ex_T))); EClose 3;
+                  EConnect 4 (ex_cn 4 ex_V ex_U ex_P (Some (ex_wl ex_B))); EClose 4;
+                  EConnect 5 (ex_cn 4 ex_A ex_U ex_P (Some (ex_wl ex_T))); EClose 5]) =
+    [[OSend 3 (KConnack false 0 [])]; [];
+     [OSend 4 (KConnack false 0 [])]; [OSend 1 (KPublish false 0 false ex_T [7] 0 [])];
+     [OSend 5 (KConnack false 0 [])]; [OSend 1 (KPublish false 1 false ex_T [5] 101 [])]].
+Proof. vm_compute. reflexivity. Qed.
+
+Example ex_will_dropped_at_unregister_hyps :
+  let s := fst (run ex_h2 [EConnect 3 (ex_cn 4 ex_W ex_U ex_P (Some (ex_wl ex_T)))]) in
+  exists k se, nget 3 (b_conns s) = Some k /\ aget (k_cid k) (b_sessions s) = Some se /\
+               se_will se = Some (will_msg (ex_wl ex_T)) /\ k_clean_will k = false /\ ur_store k se s = false /\
+               refusal (will_verdict (b_hooks s) (k_cid k)) = Some None.
+Proof. eexists _, _. split; [vm_compute; reflexivity|]. split; [vm_compute; reflexivity|]. vm_compute. repeat split. Qed.
+
+(* ================================================================== *)
+(* 6. the statements of Props/C14.v, tables spelled out                *)
+(* ================================================================== *)
+
+Theorem connect_rejected_explicit c cn s s' o :
+  unattached s c -> cid_allowed cn s = true -> hc_code cn s <> 0 ->
+  step_event s (EConnect c cn) = (s', o) ->
+  o = [OSend c (KConnack false (connack_code (cn_ver cn) (hc_code cn s)) [])] /\
+  b_sessions s' = b_sessions s /\ b_subs s' = b_subs s /\ b_ret s' = b_ret s /\ b_wills s' = b_wills s /\
+  b_queues s' = b_queues s /\ b_unacks s' = b_unacks s /\ b_online s' = b_online s /\ b_offline s' = b_offline s /\
+  (exists k, nget c (b_conns s') = Some k /\ k_phase k = PhDead) /\
+  (forall c', c' <> c -> nget c' (b_conns s') = nget c' (b_conns s)).
+Proof.
+  intros Hu Hz Hc E. destruct (connect_rejected_leaves_nothing c cn s Hu Hz Hc) as (Ho & Ht & Hk & Hn).
+  rewrite E in Ho, Ht, Hk, Hn. cbn [fst snd] in *.
+  split; [exact Ho|]. unfold tables in Ht. injection Ht as -> -> -> -> -> -> -> ->.
+  repeat (split; [reflexivity|]). split; [|exact Hn]. eexists. split; [exact Hk|reflexivity].
+Qed.
+
+(* the poll loops that follow an event leave every table but the queues alone *)
+Lemma step_tables_nq s e : tables_nq (fst (step s e)) = tables_nq (fst (step_event s e)).
+Proof.
+  unfold step. destruct (step_event s e) as [s1 o1]. cbn [fst].
+  pose proof (BrokerQos2P.poll_all_frame s1) as [F _]. destruct (poll_all s1) as [s2 o2]. cbn [fst] in *.
+  now apply dframe_tables_nq.
+Qed.
+
+Theorem publish_rejected_explicit c k s dup qos retain topic payload pid props k' m err :
+  let v5 := k_v k =? 5 in
+  nget c (b_conns s) = Some k -> k_phase k = PhConnected ->
+  pub_accepts k qos retain topic props = true ->
+  (qos = 2 -> ~ In pid (Uof (k_cid k) s)) ->
+  pub_alias v5 (charge k qos) topic props (msg_of_publish v5 dup qos retain topic payload pid props) = inl (Some (k', m)) ->
+  refusal (msg_verdict (b_hooks s) (m_topic m)) = Some err ->
+  exists s',
+    step_event s (ESend c (KPublish dup qos retain topic payload pid props)) =
+      (s', pub_ack c qos pid (if v5 then match err with Some cd => cd | None => 16 end else 0)) /\
+    b_queues s' = b_queues s /\ b_ret s' = b_ret s /\ b_subs s' = b_subs s /\ b_sessions s' = b_sessions s /\
+    b_wills s' = b_wills s /\ b_online s' = b_online s /\ b_offline s' = b_offline s /\
+    b_tag s' = b_tag s /\ b_npick s' = b_npick s.
+Proof.
+  intros v5 Hk Hp Hacc Hn Hal Hv.
+  destruct (publish_refused_by_hook c k s dup qos retain topic payload pid props k' m err Hacc Hn Hal Hv) as (s' & E & Q).
+  exists s'. split; [now apply (send_event_ok c k)|]. unfold qproj in Q. injection Q as Q1 Q2 Q3 Q4 Q5 Q6 Q7 Q8 Q9 Q10 Q11 Q12 Q13 Q14 Q15.
+  repeat split; assumption.
+Qed.
+
+(* ================================================================== *)
+(* 7. a refused CONNECT and the poll loops                             *)
+(* ================================================================== *)
+
+(* every poll loop is parked: nothing is left to be written (the state the harness observes) *)
+Definition quiescent (s : st) : bool :=
+  forallb (fun ck => match poll_once (fst ck) s with None => true | Some _ => false end) (b_conns s).
+
+Lemma poll_conn_parked fuel c s : poll_once c s = None -> poll_conn fuel c s = (s, []).
+Proof. intros H. destruct fuel; cbn [poll_conn]; [reflexivity|]. now rewrite H. Qed.
+
+Lemma poll_all_quiescent s : quiescent s = true -> poll_all s = (s, []).
+Proof.
+  unfold quiescent, poll_all. intros H. rewrite forallb_forall in H.
+  assert (G : forall l, (forall ck, In ck l -> poll_once (fst ck) s = None) ->
+              fold_left (fun (acc : st * list out) (ck : N * conn) =>
+                           let '(s0, o0) := acc in let '(s', o') := poll_conn 400 (fst ck) s0 in (s', o0 ++ o'))
+                        l (s, []) = (s, [])).
+  { induction l as [|ck l IH]; intros Hl; cbn [fold_left]; [reflexivity|].
+    rewrite (poll_conn_parked 400 (fst ck) s) by (apply Hl; now left). cbn [app].
+    apply IH. intros ck' Hin. apply Hl. now right. }
+  apply G. intros ck Hin. specialize (H ck Hin). destruct (poll_once (fst ck) s); [discriminate|reflexivity].
+Qed.
+
+(* whether a poll loop is parked depends on its own connection record, the queues and the clock only *)
+Lemma poll_once_none_ext c s s' :
+  nget c (b_conns s') = nget c (b_conns s) -> b_queues s' = b_queues s -> b_now s' = b_now s ->
+  poll_once c s = None -> poll_once c s' = None.
+Proof.
+  unfold poll_once. intros -> -> ->. destruct (nget c (b_conns s)) as [k|]; [|auto].
+  destruct (k_phase k); auto.
+  all: destruct (aget (k_cid k) (b_queues s)) as [q|]; auto.
+  all: destruct (negb (k_drained k)).
+  all: try (destruct (q_read_inflight (b_now s) (N.to_nat (k_max_inflight k)) q) as [q' [|r rs]]; [discriminate|];
+            match goal with |- context [fold_left ?f ?l ?a] => destruct (fold_left f l a) end; discriminate).
+  all: destruct (k_held k) as [ids|].
+  all: try (destruct (q_read (b_now s) ids q) as [[[q' rs] evs]| | |]; auto;
+            match goal with |- context [fold_left ?f ?l ?a] => destruct (fold_left f l a) end; discriminate).
+  all: match goal with |- context [lim_poll ?a ?b] => destruct (lim_poll a b) as [l' [| | |ids]] end; auto; discriminate.
+Qed.
+
+Lemma poll_once_unattached c s : ~ att s c -> poll_once c s = None.
+Proof.
+  intros H. unfold poll_once. destruct (nget c (b_conns s)) as [k|] eqn:Hk; [|reflexivity].
+  destruct (k_phase k) eqn:Hp; try reflexivity; exfalso; apply H; exists k; rewrite Hp; now split.
+Qed.
+
+Lemma in_nset {V} (c c' : N) (v v' : V) l : In (c', v') (nset c v l) -> c' = c \/ In (c', v') l.
+Proof.
+  induction l as [|[k0 v0] r IH]; cbn [nset In]; intros H.
+  - destruct H as [[= <- _]|[]]. now left.
+  - destruct (c =? k0); cbn [In] in H.
+    + destruct H as [[= <- _]|H]; [now left|right; now right].
+    + destruct H as [H|H]; [right; now left|]. apply IH in H as [H|H]; [now left|right; now right].
+Qed.
+
+(* replacing the record of socket c by one that is not attached keeps a quiescent broker quiescent *)
+Lemma quiescent_upd_unattached c k s :
+  attached (k_phase k) = false -> quiescent s = true -> quiescent (upd_conn c k s) = true.
+Proof.
+  intros Ha Hq. unfold quiescent in *. rewrite forallb_forall in *. intros [c' k'] Hin. cbn [fst].
+  proj_in Hin. apply in_nset in Hin.
+  destruct (N.eq_dec c' c) as [->|Hne].
+  - rewrite poll_once_unattached; [reflexivity|].
+    intros (k0 & Hk0 & Ha0). proj_in Hk0. rewrite nget_nset_same in Hk0. injection Hk0 as <-. congruence.
+  - destruct Hin as [->|Hin]; [contradiction|]. specialize (Hq (c', k') Hin). cbn [fst] in Hq.
+    destruct (poll_once c' s) eqn:E; [discriminate|].
+    rewrite (poll_once_none_ext c' s (upd_conn c k s)); [reflexivity| | | |exact E]; proj; try reflexivity.
+    now apply nget_nset_other.
+Qed.
+
+(* Target 1 for the whole step of a quiescent broker: the poll loops have nothing to do, the step is the event -
+   exactly one CONNACK, all tables including every queue as before *)
+Theorem connect_rejected_step_quiescent c cn s :
+  quiescent s = true -> unattached s c -> cid_allowed cn s = true -> hc_code cn s <> 0 ->
+  step s (EConnect c cn) = step_event s (EConnect c cn) /\
+  snd (step s (EConnect c cn)) = [OSend c (KConnack false (connack_code (cn_ver cn) (hc_code cn s)) [])] /\
+  tables (fst (step s (EConnect c cn))) = tables s /\
+  quiescent (fst (step s (EConnect c cn))) = true.
+Proof.
+  intros Hq Hu Hz Hc.
+  assert (Hq1 : quiescent (fst (step_event s (EConnect c cn))) = true).
+  { cbn [step_event].
+    assert (Hq0 : quiescent (fst (conn_gone c s)) = true).
+    { unfold conn_gone. destruct (nget c (b_conns s)) as [k|] eqn:Hk; [|exact Hq].
+      specialize (Hu k Hk). destruct (k_phase k); try discriminate; cbn [fst]; try exact Hq;
+        now apply quiescent_upd_unattached. }
+    destruct (conn_gone_unattached c s Hu) as (_ & Hh & Hcf & _).
+    destruct (conn_gone c s) as [s0 o0]. cbn [fst] in *.
+    assert (Hz0 : cid_allowed cn s0 = true) by (unfold cid_allowed in *; now rewrite Hcf).
+    assert (Hc0 : hc_code cn s0 <> 0) by (now rewrite (hc_code_ext cn s s0 Hh)).
+    rewrite (connect_rejected_handler c cn s0 Hz0 Hc0). cbn [fst].
+    now apply quiescent_upd_unattached. }
+  destruct (connect_rejected_leaves_nothing c cn s Hu Hz Hc) as (Ho & Ht & _).
+  assert (E : step s (EConnect c cn) = step_event s (EConnect c cn)).
+  { unfold step. destruct (step_event s (EConnect c cn)) as [s1 o1]. cbn [fst] in Hq1.
+    rewrite (poll_all_quiescent s1 Hq1). now rewrite app_nil_r. }
+  rewrite E. repeat split; assumption.
+Qed.
+
+Example ex_quiescent : quiescent ex_h0 = true /\ quiescent ex_h2 = true.
+Proof. vm_compute. split; reflexivity. Qed.
+
+(* ================================================================== *)
+(* 8. "rewritten" against the broker without hooks                     *)
+(* ================================================================== *)
+
+(* the same broker state with another hooks record *)
+Definition set_hooks (h : hooks) (s : st) : st :=
+  {| b_cfg := b_cfg s; b_hooks := h; b_now := b_now s; b_rt := b_rt s; b_sessions := b_sessions s;
+     b_online := b_online s; b_offline := b_offline s; b_wills := b_wills s; b_subs := b_subs s; b_ret := b_ret s;
+     b_queues := b_queues s; b_unacks := b_unacks s; b_conns := b_conns s; b_picks := b_picks s; b_tag := b_tag s;
+     b_auto := b_auto s; b_npick := b_npick s |}.
+
+Lemma set_hooks_id s : set_hooks (b_hooks s) s = s.
+Proof. destruct s; reflexivity. Qed.
+Lemma set_hooks_set_hooks h h' s : set_hooks h (set_hooks h' s) = set_hooks h s.
+Proof. reflexivity. Qed.
+Lemma set_hooks_restore h s s' : b_hooks s' = b_hooks s -> set_hooks (b_hooks s) (set_hooks h s') = s'.
+Proof. intros <-. rewrite set_hooks_set_hooks. apply set_hooks_id. Qed.
+
+Definition lift_hooks (h : hooks) (r : st * list out) : st * list out := (set_hooks h (fst r), snd r).
+
+Lemma release_dropped_hooks h cid evs s : release_dropped cid evs (set_hooks h s) = set_hooks h (release_dropped cid evs s).
+Proof.
+  unfold release_dropped. cbn [b_online b_conns set_hooks].
+  destruct (aget cid (b_online s)) as [c|]; [|reflexivity]. destruct (nget c (b_conns s)); reflexivity.
+Qed.
+
+Lemma add_to_queue_hooks h cid m sb ids s :
+  add_to_queue cid m sb ids (set_hooks h s) = lift_hooks h (add_to_queue cid m sb ids s).
+Proof.
+  unfold add_to_queue. cbn [b_queues b_online b_cfg b_now b_tag b_picks set_hooks].
+  destruct (aget cid (b_queues s)) as [q0|]; [|reflexivity].
+  destruct (negb (c_queue_qos0 (b_cfg s)) && negb (ahas cid (b_online s)) && (m_qos m =? 0)); [reflexivity|].
+  match goal with |- context [q_add ?a ?b ?d] => destruct (q_add a b d) as [[q' evs]| | |] end; try reflexivity.
+  unfold lift_hooks. cbn [fst snd]. rewrite <- release_dropped_hooks. reflexivity.
+Qed.
+
+Lemma take_pick_hooks h n s : take_pick n (set_hooks h s) = (fst (take_pick n s), set_hooks h (snd (take_pick n s))).
+Proof. unfold take_pick. cbn [b_picks set_hooks]. destruct (b_picks s); reflexivity. Qed.
+
+Lemma fold_hooks {A} h (f : st * list out -> A -> st * list out) (l : list A) :
+  (forall s o a, f (set_hooks h s, o) a = lift_hooks h (f (s, o) a)) ->
+  forall s o, fold_left f l (set_hooks h s, o) = lift_hooks h (fold_left f l (s, o)).
+Proof.
+  intros Hf. induction l as [|a l IH]; intros s o; cbn [fold_left]; [reflexivity|].
+  rewrite Hf. destruct (f (s, o) a) as [s1 o1]. unfold lift_hooks at 1. cbn [fst snd]. apply IH.
+Qed.
+
+(* `deliver` never looks at the hooks *)
+Lemma deliver_hooks h src m s :
+  deliver src m (set_hooks h s) =
+  (set_hooks h (fst (fst (deliver src m s))), snd (fst (deliver src m s)), snd (deliver src m s)).
+Proof.
+  unfold deliver. cbn [b_subs b_cfg set_hooks].
+  set (ents := filter (fun e => negb (s_nl (snd e) && str_eqb (fst e) src)) _).
+  set (shared := filter (fun e => negb (is_empty (s_share (snd e)))) ents).
+  set (plain := filter (fun e => is_empty (s_share (snd e))) ents).
+  (* stage 1 *)
+  match goal with |- context [if c_onlyonce (b_cfg s) then (set_hooks h s, []) else fold_left ?f plain (set_hooks h s, [])] =>
+    assert (E1 : (if c_onlyonce (b_cfg s) then (set_hooks h s, []) else fold_left f plain (set_hooks h s, [])) =
+                 lift_hooks h (if c_onlyonce (b_cfg s) then (s, []) else fold_left f plain (s, []))) end.
+  { destruct (c_onlyonce (b_cfg s)); [reflexivity|]. apply fold_hooks. intros s0 o0 a.
+    rewrite add_to_queue_hooks. destruct (add_to_queue (fst a) m (snd a) [s_id (snd a)] s0); reflexivity. }
+  rewrite E1. clear E1.
+  match goal with |- context [lift_hooks h ?X] => destruct X as [s1 o1] end. unfold lift_hooks. cbn [fst snd].
+  (* stage 2 *)
+  match goal with |- context [fold_left ?f (group_shared shared []) (set_hooks h s1, o1)] =>
+    rewrite (fold_hooks h f (group_shared shared [])); [destruct (fold_left f (group_shared shared []) (s1, o1)) as [s2 o2]|] end.
+  2:{ intros s0 o0 g.
+      assert (EP : (match snd g with [_] => (0%nat, set_hooks h s0) | _ => take_pick (length (snd g)) (set_hooks h s0) end) =
+                   (fst (match snd g with [_] => (0%nat, s0) | _ => take_pick (length (snd g)) s0 end),
+                    set_hooks h (snd (match snd g with [_] => (0%nat, s0) | _ => take_pick (length (snd g)) s0 end)))).
+      { destruct (snd g) as [|x [|y r]]; try apply take_pick_hooks. reflexivity. }
+      rewrite EP. destruct (match snd g with [_] => (0%nat, s0) | _ => take_pick (length (snd g)) s0 end) as [i s0'].
+      cbn [fst snd]. destruct (nth_error (snd g) i) as [[c sb]|]; [|reflexivity].
+      rewrite add_to_queue_hooks. destruct (add_to_queue c m sb [s_id sb] s0'); reflexivity. }
+  unfold lift_hooks. cbn [fst snd].
+  (* stage 3 *)
+  destruct (c_onlyonce (b_cfg s)); [|reflexivity].
+  match goal with |- context [fold_left ?f (group_by_client plain []) (set_hooks h s2, o2)] =>
+    rewrite (fold_hooks h f (group_by_client plain [])); [destruct (fold_left f (group_by_client plain []) (s2, o2)) as [s3 o3]|] end.
+  2:{ intros s0 o0 g. set (best := filter (fun x => s_qos x =? max_qos_of (snd g)) (snd g)).
+      assert (EP : (match best with [_] => (0%nat, set_hooks h s0) | _ => take_pick (length best) (set_hooks h s0) end) =
+                   (fst (match best with [_] => (0%nat, s0) | _ => take_pick (length best) s0 end),
+                    set_hooks h (snd (match best with [_] => (0%nat, s0) | _ => take_pick (length best) s0 end)))).
+      { destruct best as [|x [|y r]]; try apply take_pick_hooks. reflexivity. }
+      rewrite EP. destruct (match best with [_] => (0%nat, s0) | _ => take_pick (length best) s0 end) as [i s0'].
+      cbn [fst snd]. destruct (nth_error best i) as [sb|]; [|reflexivity].
+      rewrite add_to_queue_hooks. destruct (add_to_queue (fst g) m sb (map s_id (snd g)) s0'); reflexivity. }
+  reflexivity.
+Qed.
+
+Lemma retain_update_hooks h m s : retain_update m (set_hooks h s) = set_hooks h (retain_update m s).
+Proof. unfold retain_update. destruct (m_retained m); reflexivity. Qed.
+
+(* forwarding m under a hook that rewrites it to m' IS forwarding m' in the broker without any hook *)
+Theorem publish_rewritten_as_unhooked k m s t p q :
+  msg_verdict (b_hooks s) (m_topic m) = MRewrite t p q ->
+  pub_fwd k m false s =
+  (let '(s', o, mt, e) := pub_fwd k (rewrite_msg t p q m) false (set_hooks no_hooks s) in (set_hooks (b_hooks s) s', o, mt, e)).
+Proof.
+  intros Hv. rewrite (pub_fwd_rewritten k m s t p q Hv), (pub_fwd_no_hook k _ (set_hooks no_hooks s)) by reflexivity.
+  set (m' := rewrite_msg t p q m). unfold fwd_plain. rewrite retain_update_hooks, deliver_hooks.
+  pose proof (deliver_frame (k_cid k) m' (retain_update m' s)) as [F _].
+  destruct (deliver (k_cid k) m' (retain_update m' s)) as [[s' o] mt]. cbn [fst snd] in *.
+  rewrite set_hooks_restore; [reflexivity|].
+  rewrite (df_hooks _ _ F). unfold retain_update. destruct (m_retained m'); reflexivity.
+Qed.
+
+(* ... and an accepted message is forwarded as without hooks *)
+Theorem publish_accepted_as_unhooked k m s :
+  msg_verdict (b_hooks s) (m_topic m) = MAccept ->
+  pub_fwd k m false s =
+  (let '(s', o, mt, e) := pub_fwd k m false (set_hooks no_hooks s) in (set_hooks (b_hooks s) s', o, mt, e)).
+Proof.
+  intros Hv. rewrite (pub_fwd_accepted k m s Hv), (pub_fwd_no_hook k _ (set_hooks no_hooks s)) by reflexivity.
+  unfold fwd_plain. rewrite retain_update_hooks, deliver_hooks.
+  pose proof (deliver_frame (k_cid k) m (retain_update m s)) as [F _].
+  destruct (deliver (k_cid k) m (retain_update m s)) as [[s' o] mt]. cbn [fst snd] in *.
+  rewrite set_hooks_restore; [reflexivity|].
+  rewrite (df_hooks _ _ F). unfold retain_update. destruct (m_retained m); reflexivity.
+Qed.
+
+(* the will: published under the rewriting hook = the rewritten will published by the broker without hooks *)
+Theorem will_rewritten_as_unhooked cid m s t p q :
+  will_verdict (b_hooks s) cid = MRewrite t p q ->
+  send_will cid m s = lift_hooks (b_hooks s) (send_will cid (with_topic_payload_qos t p q m) (set_hooks no_hooks s)).
+Proof.
+  intros Hv. rewrite (will_rewritten cid m s t p q Hv). cbv zeta. set (m' := with_topic_payload_qos t p q m).
+  rewrite (will_untouched cid m' (set_hooks no_hooks s)) by reflexivity.
+  rewrite retain_update_hooks, deliver_hooks.
+  pose proof (deliver_frame cid m' (retain_update m' s)) as [F _].
+  destruct (deliver cid m' (retain_update m' s)) as [[s' o] mt]. unfold lift_hooks. cbn [fst snd] in *.
+  rewrite set_hooks_restore; [reflexivity|].
+  rewrite (df_hooks _ _ F). unfold retain_update. destruct (m_retained m'); reflexivity.
+Qed.
+
+(* ================================================================== *)
+(* 9. the hypotheses of subscribe_hook_enforced hold in every reachable state *)
+(* ================================================================== *)
+Theorem subscribe_hyps_reachable cfg h picks es c k :
+  let s := fst (run (st_init cfg h picks) es) in
+  nget c (b_conns s) = Some k -> k_phase k = PhConnected ->
+  k_cid k <> [] /\ exists ops, wf_ops ops = true /\ b_subs s = db_run ops.
+Proof.
+  intros s Hk Hp. pose proof (reachable_inv cfg h picks es) as HI. fold s in HI.
+  destruct (reachable_subsinv cfg h picks es) as (ops & Hwf & Hd & _). fold s in Hd.
+  split; [|exists ops; now split].
+  assert (Ha : attached (k_phase k) = true) by now rewrite Hp.
+  pose proof (BInv_attached_online s c k HI Hk Ha) as Hon.
+  apply (bi_ne _ _ HI). apply (bi_has _ _ HI). now rewrite (ahas_some _ _ _ Hon).
 Qed.
